@@ -113,10 +113,25 @@ def main() -> None:
         out['signatures'] = sorted(seen)
         print('C03-STATS ' + json.dumps(out), flush=True)
 
+    class Stuck(BaseException):
+        pass
+
+    def on_cpu_alarm(_signo, _frame):
+        raise Stuck()
+
+    signal.signal(signal.SIGVTALRM, on_cpu_alarm)
+
     def test_one_input(data: bytes) -> None:
         msg_type, neg, body = split_input(data, table_size)
         body = body[: sizes[neg]]
-        outcome = c03_target.decode_and_force(msg_type, body, c03_target.negotiated_for(neg))
+        # a decode takes well under a millisecond: five CPU seconds is a decoder that does not terminate (libFuzzer's own -timeout is the second line)
+        signal.setitimer(signal.ITIMER_VIRTUAL, 5)
+        try:
+            outcome = c03_target.decode_and_force(msg_type, body, c03_target.negotiated_for(neg))
+        except Stuck:
+            outcome = ('violation', 'no-termination:watchdog', 'still decoding after 5 s of CPU')
+        finally:
+            signal.setitimer(signal.ITIMER_VIRTUAL, 0)
         stats['execs'] += 1
         stats[outcome[0]] += 1
         if stats['execs'] % STATS_EVERY == 0:
